@@ -102,6 +102,19 @@ def random_case(rng, n, force):
     return Case(lines, desc={"random": True, "repos": repos, "plat": fplat, "stored": [s[0] for s in stored][:6], "queries": nq})
 
 
+def far_case(n, kind):
+    """entries whose offsets use the whole 28-bit field (offsets are stored in 128-byte units: up to 2^35 bytes); looked up
+    without reading data"""
+    inst = Installation([0, 1], 0)
+    lines = []
+    for i, q in enumerate([2**24, 2**25 - 1, 2**25, 2**25 + 1, 2**26 + 5, 2**27, 2**28 - 1]):
+        path = "bg/%sfar/f%d.lgb" % ("ex1/" if i % 2 else "", i)
+        inst.add_entry(i % 2, 2, 0, kind, list(path.encode()), i % 8, q * 128, syn=i == 3)
+        for qk in ("exists", "find_offset"):
+            lines.append({"op": "archive.query", "h": 1, "case": n, "q": qk, "path": list(path.encode())})
+    return Case([inst.open_line(1, n)] + lines + [{"op": "archive.close", "h": 1, "case": n}], desc={"far offsets": kind})
+
+
 def sweep_case(n, cat, ex, chunk, plat):
     """one path per data file dat0..dat7, all at the same offset, each with its own content; every query kind on each"""
     inst = Installation([0, ex], plat)
@@ -140,11 +153,14 @@ def check(run):
     base = len(cases)
     for i, cat in enumerate(CATS):
         cases.append(sweep_case(base + i, cat, i % 10, (7 * i) % 10, i % 5))
+    base = len(cases)
+    for i, kind in enumerate([1, 2]):
+        cases.append(far_case(base + i, kind))
     run.rule = ("one query history per transition (layout, memo before, call, memo after) of the bounded handle model (TLC VIEW; "
                 "913 layouts of <= 2 stored paths over chunk x index/index2/both x dat, 8 probe paths incl. case twins, fallback, "
                 "unknown category; histories <= 3 calls; quick replays a seeded 6%), plus stratified random installations (all 15 "
                 "categories, ex0..ex9, chunks 0..9, 5 platforms, 1..64 entries per index over dat0..7, synonym bits, noise entries) "
-                "with 30 interleaved queries per handle, a dat0..dat7 sweep per category; distinct by script, non-trivial when the layout stores at least one path")
+                "with 30 interleaved queries per handle, a dat0..dat7 sweep per category, offsets up to 2^35 - 128 bytes (looked up, not read); distinct by script, non-trivial when the layout stores at least one path")
     run.conform(cases, MODULE, CFG, shards=14, xmx="4g")
     run.assumptions = ["index layout recalled from the public SqPack description; the index-type value is written where the "
                        "library reads it (byte 296, value 0/1) and where the recalled layout has it (u32 at 300, value 0/2): "
